@@ -1,2 +1,6 @@
-import DosModel.Model.Collector
-def main : IO Unit := Dos.lineLoop Dos.Collector.stepLine
+import DosModel.Model.Query
+def c13Line (line : String) : String :=
+  match Dos.words line with
+  | "inc" :: rest => Dos.Query.incLine rest
+  | _ => Dos.Collector.stepLine line
+def main : IO Unit := Dos.lineLoop c13Line
